@@ -170,7 +170,7 @@ Proof.
     cbn zeta in Eg. destruct (negb (key_ok k)); [inversion Eg; subst; exact HJ|].
     destruct (io _ _) as [ok e1] eqn:Eio.
     assert (Hx : FJ (ss_wal s) (e_disk e1)).
-    { destruct (io_cases _ _ _ _ Eio) as [(_ & Ed)|(_ & Ed)]; rewrite Ed; [|exact HJ].
+    { destruct (io_cases _ _ _ _ Eio eq_refl) as [(_ & Ed)|(_ & Ed)]; rewrite Ed; [|exact HJ].
       eapply FJ_files; [| |exact HJ]; reflexivity. }
     destruct ok; inversion Eg; subst; exact Hx.
   - destruct (get_stable (ss_wal s) k (ss_env s)) as [r0 e'] eqn:Eg. inversion H; subst. cbn [ss_wal ss_env].
